@@ -79,7 +79,16 @@ def first_diff(a, b):
     return "at byte %d: model ...%r  impl ...%r" % (k, a[max(0, k - 40):k + 60], b[max(0, k - 40):k + 60])
 
 
-def run_logql(ck, n_quick=1500, n_thorough=40000, shard=4000):
+ZONES = ["Asia/Tokyo", "Pacific/Kiritimati", "Australia/Sydney", "Asia/Kolkata", "Europe/Berlin", "America/New_York", "Pacific/Pago_Pago", "UTC"]
+
+
+def run_logql(ck, n_quick=1500, n_thorough=40000, shard=4000, zones=None, zone_share=3, env_zone=None, env_n=0):
+    """zones: one generated case in zone_share is planned with the PROCESS zone (time.Local, what TZ= sets) put to one of
+    these IANA names (ctx.tz; half of them with a window starting next to the UTC midnight on the side where the zone's
+    calendar day differs). The planner model has no zone parameter, so the text must not depend on it.
+    env_zone / env_n: the first env_n cases are planned a second time by a harness process started with TZ=env_zone in its
+    environment; the statements must be those of the first run, byte for byte (cases whose text differs join the
+    mismatches with ctx.tz = env_zone)."""
     ok, out = ck.coq_make(["model/LogqlCases.vo"])
     if not ok:
         ck.obligation("LogQL planner model builds", False, out[-1500:])
@@ -89,11 +98,34 @@ def run_logql(ck, n_quick=1500, n_thorough=40000, shard=4000):
         return []
     n = ck.n(n_quick, n_thorough)
     outp = os.path.join(ck.work, "logqlsql.jsonl")
-    rc, out = ck.go_run("logqlsql", ["--seed", ck.seed, "--n", n, "--out", outp], timeout=1800)
+    zargs = ["--zones", ",".join(zones), "--zone-share", zone_share] if zones else []
+    rc, out = ck.go_run("logqlsql", ["--seed", ck.seed, "--n", n, "--out", outp] + zargs, timeout=1800)
     if rc != 0:
         ck.obligation("harness logqlsql ran", False, out[-1500:])
         return []
     cases = [json.loads(l) for l in open(outp)]
+    env_mism = []
+    if env_zone and env_n:
+        # the same generator run (same seed: the same cases) in a process whose environment says TZ=<zone>; cases that carry
+        # a zone of their own keep it (both runs plan them under that zone)
+        oute = os.path.join(ck.work, "logqlsql_tzenv.jsonl")
+        rc, out = ck.go_run("logqlsql", ["--seed", ck.seed, "--n", min(n, env_n), "--out", oute] + zargs, timeout=1800, env_extra={"TZ": env_zone})
+        if rc != 0:
+            ck.obligation("harness logqlsql ran under TZ=%s" % env_zone, False, out[-1500:])
+            return []
+        other = [json.loads(l) for l in open(oute)]
+        same_cases = all(a["query"] == b["query"] and a["ctx"] == b["ctx"] for a, b in zip(cases, other))
+        for a, b in zip(cases, other):
+            if (a.get("sql"), a.get("err")) != (b.get("sql"), b.get("err")):
+                x = dict(b)
+                x["ctx"] = dict(b["ctx"], tz=b["ctx"].get("tz") or env_zone)
+                x["diff"] = "TZ=%s: %s" % (env_zone, first_diff((a.get("sql") or [""])[0].encode("utf8", "surrogateescape"), (b.get("sql") or [""])[0].encode("utf8", "surrogateescape")))
+                env_mism.append(x)
+        ck.obligation("the statements do not depend on the zone of the reader process: a harness process started with TZ=%s prints, for the first %d generated "
+                      "(query, ctx), the statements of the run in the check's own zone, byte for byte" % (env_zone, len(other)),
+                      same_cases and len(other) > 0 and not env_mism,
+                      "the two runs generated different cases" if not same_cases else "%d differ; first: %s => %s" % (len(env_mism), env_mism[0]["query"], env_mism[0]["diff"]) if env_mism else "")
+        ck.extra["logql_tz_env_run"] = {"TZ": env_zone, "cases": len(other), "differ": len(env_mism)}
     usable = [c for c in cases if c.get("ast_ml") and c.get("err") in (None, "", "plan", "process", "panic")]
     skipped = {}
     for c in cases:
@@ -121,7 +153,13 @@ def run_logql(ck, n_quick=1500, n_thorough=40000, shard=4000):
                   not mism, "; ".join("%s => %s" % (c["query"], c["diff"]) for c in mism[:3]))
     ck.extra["logql_sql_mismatches"] = [{"query": c["query"], "ctx": c["ctx"], "diff": c["diff"]} for c in mism[:20]]
     ck.extra["logql_skipped"] = skipped
-    ck.sql_mismatch_cases = mism
+    if zones:
+        zh = {}
+        for c in usable:
+            z = c["ctx"].get("tz") or "(process default)"
+            zh[z] = zh.get(z, 0) + 1
+        ck.extra["logql_process_zones"] = zh
+    ck.sql_mismatch_cases = mism + env_mism
     return cases
 
 
